@@ -409,6 +409,12 @@ func (s *QueryVisitor) EnterOC_RegularQuery(ctx *parser.OC_RegularQueryContext) 
 }
 
 func (s *QueryVisitor) EnterOC_SingleQuery(ctx *parser.OC_SingleQueryContext) {
+	if s.Query == nil {
+		// oC_LoadCSVQuery holds a single query that is not wrapped in a regular query. The bulk import rule
+		// has already been reported as unsupported; the model is still built so that the walk completes.
+		s.Query = cypher.NewRegularQuery()
+	}
+
 	s.Query.SingleQuery = cypher.NewSingleQuery()
 }
 
